@@ -275,3 +275,34 @@ Theorem Tie_send_bundle : forall (s : ep) (data : bytes), closed s = false ->
                         <| tx_map := dict_set (next_id s) 0 (tx_map s) |>)).
 Proof. exact tie_send_bundle. Qed.
 Print Assumptions Tie_send_bundle.
+
+(** ContactHandler.close: the report loop at its head (Gen/TcpclClose.v; it must
+    be followed by exactly the removal from the bus and Messenger.close).  A
+    close that takes effect empties the queue of unstarted transfers, removes
+    each from the transmit map and emits its SigSendFinished [id; 0; "session
+    terminating"], in queue order, BEFORE the socket-closed event; nothing else
+    of the abstract handler state changes and nothing is sent. *)
+From DTN Require Import Gen.TcpclClose Proofs.TcpclHandlerTie4.
+Theorem Tie_close_reports : forall s : ep, closed s = false ->
+  let g := gen_close_flush (habs s) in
+  closed (do_close s) = true
+  /\ h_pend_start g = map (fun it => (fst it, None)) (pend_start (do_close s))
+  /\ h_tx_map g = tx_map (do_close s)
+  /\ trace (do_close s) = trace s ++ h_events g ++ [EClosed]
+  /\ h_in_sess g = in_sess (do_close s) /\ h_in_conn g = in_conn (do_close s)
+  /\ h_pend_ack g = pend_ack (do_close s)
+  /\ h_tx_tmp g = match tx_tmp (do_close s) with Some (i, _) => Some i | None => None end
+  /\ h_tx_len g = tx_len (do_close s) /\ h_pq g = pq_set (do_close s)
+  /\ h_sent g = [] /\ sent (do_close s) = sent s /\ h_check g = false.
+Proof. exact tie_close_reports. Qed.
+Print Assumptions Tie_close_reports.
+
+(* Non-vacuity: two queued, unstarted bundles are reported in queue order. *)
+Example Tie_close_nonvacuous :
+  let s := run (mkCfg false [100] 30 60 1000 500 None) [OStart; OSend [1;2;3]; OSend [4]] in
+  closed s = false
+  /\ h_events (gen_close_flush (habs s))
+     = [ESig SigSendFinished [PStrNum 1; PInt 0; PStr RES_TERMINATING];
+        ESig SigSendFinished [PStrNum 2; PInt 0; PStr RES_TERMINATING]]
+  /\ h_tx_map (gen_close_flush (habs s)) = [].
+Proof. vm_compute. repeat split; reflexivity. Qed.
